@@ -32,7 +32,7 @@ type Pipe struct {
 	Plan []int
 	// Auto: receiver is a scripted actor, bytes are handed over at once.
 	Auto bool
-	// Cap > 0: backpressure; the sender blocks when inflight+delivered >= Cap.
+	// Cap > 0: backpressure; the sender blocks when Cap bytes are in flight (socket buffer full).
 	Cap int
 	// Boundaries: structural offsets (absolute) used to bias fragment choices.
 	Boundaries []int
@@ -264,7 +264,7 @@ func (c *SimConn) Write(p []byte) (int, error) {
 		out := c.Out
 		space := len(p) - written
 		if out.Cap > 0 {
-			space = out.Cap - out.inflightLen() - len(out.delivered)
+			space = out.Cap - out.inflightLen()
 			if space > len(p)-written {
 				space = len(p) - written
 			}
@@ -485,6 +485,25 @@ func (c *SimConn) InflightTo() int {
 	return c.In.inflightLen()
 }
 
+// Drop forgets a finished connection pair (keeps long episodes linear).
+func (n *Net) Drop(cs ...*SimConn) {
+	n.s.Mu.Lock()
+	defer n.s.Mu.Unlock()
+	out := n.conns[:0:0]
+	for _, c := range n.conns {
+		keep := true
+		for _, d := range cs {
+			if c == d {
+				keep = false
+			}
+		}
+		if keep {
+			out = append(out, c)
+		}
+	}
+	n.conns = out
+}
+
 // ResetAll tears down every connection (episode cleanup).
 func (n *Net) ResetAll() {
 	n.s.Mu.Lock()
@@ -544,7 +563,7 @@ func (n *Net) Enabled(add func(Event)) {
 			switch {
 			case c.closed, out.rst, w.timedOut:
 				cs = append(cs, cand{"wake-writer " + c.Name, 10, func() { s.Release(w.task) }})
-			case out.Cap > 0 && out.inflightLen()+len(out.delivered) < out.Cap:
+			case out.Cap > 0 && out.inflightLen() < out.Cap:
 				cs = append(cs, cand{"wake-writer " + c.Name, 10, func() { s.Release(w.task) }})
 			}
 		}
